@@ -146,21 +146,6 @@ def c11_handshaking_connections_left_open():
     return (not cs.closed), "socket of a connection still in TLS handshake closed=%s after ServerTls.close()" % cs.closed
 
 
-FINDINGS = {k: v for k, v in list(globals().items()) if k[:1] == "c" and k[1:3].isdigit() and callable(v)}
-
-
-def main():
-    names = sys.argv[1:] or sorted(FINDINGS)
-    rc = 0
-    for n in names:
-        v, d = FINDINGS[n]()
-        print("%s %s: %s" % ("VIOLATED" if v else "holds   ", n, d))
-        rc |= 1 if v else 0
-    return rc
-
-
-if __name__ == "__main__":
-    sys.exit(main())
 
 
 def c10_clienttls_handshake_raises():
@@ -176,4 +161,53 @@ def c10_clienttls_handshake_raises():
     return False, "handshake abort handled"
 
 
+
+def c07_backward_step_before_run():
+    """clock steps back between Doist construction and do(): MonoTimer.start() does not refresh _last, the first latest()
+    sees a retrograde clock and shifts the freshly started period back, so cycles run without waiting"""
+    from hio.base import doing
+    from hio.help import timing
+    import time as real_time
+    orig_time, orig_sleep = real_time.time, real_time.sleep
+    st = dict(tau=1000.0, off=0.0)
+    starts = []
+
+    def ftime():
+        st["tau"] += 0.001
+        return st["tau"] + st["off"]
+
+    def fsleep(d):
+        st["tau"] += max(d, 0.0)
+
+    class W(doing.Doer):
+        def recur(self, tyme):
+            starts.append(st["tau"])
+            return len(starts) >= 4
+    doing.time.time, doing.time.sleep, timing.time.time = ftime, fsleep, ftime
+    try:
+        d = doing.Doist(real=True, tock=1.0, doers=[W()])
+        st["off"] -= 5.0            # system clock stepped back 5 s before the run
+        t0 = st["tau"]
+        d.do()
+    finally:
+        doing.time.time, doing.time.sleep, timing.time.time = orig_time, orig_sleep, orig_time
+    el = [round(s - t0, 3) for s in starts]
+    return el[1] < 1.0, "cycle start offsets (s) %r with tock 1.0 after a 5 s backward step before do()" % (el,)
+
+
+# ---- keep at the very end of the file
 FINDINGS = {k: v for k, v in list(globals().items()) if k[:1] == "c" and k[1:3].isdigit() and callable(v)}
+
+
+def main():
+    names = sys.argv[1:] or sorted(FINDINGS)
+    rc = 0
+    for n in names:
+        v, d = FINDINGS[n]()
+        print("%s %s: %s" % ("VIOLATED" if v else "holds   ", n, d))
+        rc |= 1 if v else 0
+    return rc
+
+
+if __name__ == "__main__":
+    sys.exit(main())
